@@ -82,6 +82,27 @@ Inverse(nn, M) == GJ(nn, M, Vec(nn, LAMBDA i : i), 1)
 \* the defining property of the inverse
 InverseLaw(nn, M, X) == RMatMul(nn, nn, nn, M, X) = IdMat(nn) /\ RMatMul(nn, nn, nn, X, M) = IdMat(nn)
 
+\* The inverse by Gauss-Jordan elimination with ROW pivoting on the augmented matrix [M | I] (first power-of-two entry of the
+\* column among the remaining rows): finds the inverse of every regular matrix whose elimination stays dyadic, in particular of
+\* regular matrices on which the diagonal pivoting of Math::invert_matrix meets a zero (st = "zero" above).
+\* st = "ok" (a = M^-1), "singular" (a column without pivot), "inexact" (only non-power-of-two candidates)
+RECURSIVE GJRow(_, _, _)
+GJRow(nn, a, k) ==       \* a: nn x 2nn
+  IF k > nn THEN [st |-> "ok", a |-> MatOf(nn, nn, LAMBDA i, j : a[i][nn + j])]
+  ELSE LET cand == {i \in k..nn : ~IsZero(a[i][k])}
+           good == {i \in cand : IsPow2(a[i][k])}
+       IN IF cand = {} THEN [st |-> "singular", a |-> <<>>]
+          ELSE IF good = {} THEN [st |-> "inexact", a |-> <<>>]
+          ELSE LET r == CHOOSE i \in good : \A j \in good : i <= j
+                   rinv == Div(One, a[r][k])
+                   rowp == Vec(2 * nn, LAMBDA j : FMul(a[r][j], rinv))
+                   sw(i) == IF i = k THEN r ELSE IF i = r THEN k ELSE i           \* rows k and r exchanged
+                   a2 == Vec(nn, LAMBDA i : IF i = k THEN rowp
+                               ELSE LET src == a[sw(i)]  f == src[k] IN
+                                    IF IsZero(f) THEN src ELSE Vec(2 * nn, LAMBDA j : FSub(src[j], FMul(rowp[j], f))))
+               IN GJRow(nn, a2, k + 1)
+InverseRP(nn, M) == GJRow(nn, MatOf(nn, 2 * nn, LAMBDA i, j : IF j <= nn THEN M[i][j] ELSE IF j - nn = i THEN One ELSE Zero), 1)
+
 \* evidently singular: a zero row or a zero column (then the routine meets an exact zero pivot whatever happened before)
 HasZeroLine(nn, M) == \/ \E i \in 1..nn : \A j \in 1..nn : M[i][j] = Zero
                       \/ \E j \in 1..nn : \A i \in 1..nn : M[i][j] = Zero
